@@ -77,6 +77,9 @@ pub fn with_rt<T>(workers: usize, f: impl std::future::Future<Output = T>) -> T 
 
 /// Raise the open-file limit as far as the kernel allows (defence in depth for the same reason).
 pub fn raise_nofile() {
+    if cfg!(miri) {
+        return;
+    }
     unsafe {
         let mut r = libc::rlimit { rlim_cur: 0, rlim_max: 0 };
         if libc::getrlimit(libc::RLIMIT_NOFILE, &mut r) == 0 {
